@@ -58,10 +58,16 @@ WEIGHTS = {"reload": 0.3, "paint": 7, "update_attrs": 0.2, "delete_node": 4, "ad
 
 
 def plan(tier, seed):
-    return common.session_plan(PROP, tier, seed, quick=4800, thorough=50000)
+    return [{"kind": "candidate", "n": 150 if tier == "quick" else 1500,
+             "seed": common.seed_for(PROP, tier, seed, "candidate")}] + \
+        common.session_plan(PROP, tier, seed, quick=4800, thorough=50000)
 
 
 def run_shard(spec):
+    if spec.get("kind") == "candidate":
+        acc = common.new_acc()
+        candidate_graph_cases(random.Random(spec["seed"]), acc, spec["n"])
+        return common.finish_acc(acc)
     from .. import session
 
     # sessions with the extended op generator
@@ -74,11 +80,60 @@ def run_shard(spec):
         session.OpGen = orig
 
 
+def candidate_graph_cases(rng, acc, n):
+    """Plain (non-solution) Tracks on a candidate-style graph: a detection may have several
+    incoming edges, also from one frame. The IoU of EVERY edge, computed in bulk, equals the
+    overlap of its endpoint masks."""
+    import warnings
+
+    from funtracks.data_model import Tracks
+
+    from .. import checks
+
+    for _ in range(n):
+        T = rng.randint(2, 4)
+        forest = gen.random_forest(rng, T, 3, "contig", 0.3, min_nodes=3, p_empty=0.0)
+        seg = gen.make_segmentation(rng, forest, (10, 10))
+        import networkx as nx
+
+        g = nx.DiGraph()
+        for node, t in forest.times.items():
+            g.add_node(node, time=t)
+        g.add_edges_from(forest.edges)
+        # extra candidate links: second / third parents, also two from the same frame
+        nodes = list(forest.times)
+        for _k in range(rng.randint(1, 5)):
+            u, v = rng.sample(nodes, 2)
+            if forest.times[u] < forest.times[v]:
+                g.add_edge(u, v)
+        with warnings.catch_warnings():
+            warnings.simplefilter("ignore")
+            tr = Tracks(g, segmentation=seg, ndim=3)
+            tr.enable_features(["iou"])
+        probs, ncmp = checks.iou_values(tr)
+        acc["evaluations"] += sum(ncmp.values())
+        acc["counters"]["candidate-graph-cases"] = \
+            acc["counters"].get("candidate-graph-cases", 0) + 1
+        if any(g.in_degree(v) > 1 for v in g):
+            acc["counters"]["candidate-graphs-with-merges"] = \
+                acc["counters"].get("candidate-graphs-with-merges", 0) + 1
+        if probs:
+            acc["violations"].append({
+                "clause": probs[0][0], "what": "candidate-style graph, bulk computation: "
+                + probs[0][1], "key": f"C09/{probs[0][0]}/bulk/candidate-graph",
+                "replay": {"kind": "candidate", "note": "re-run with a fresh generator"}})
+            return
+
+
 def floors(tier):
     return {"sessions": 200, "cmp-skip-bulk": 300, "cmp-skip-incremental": 300,
             "cmp-consecutive-bulk": 300, "cmp-consecutive-incremental": 300,
-            "differential-skip": 300}
+            "differential-skip": 300, "candidate-graphs-with-merges": 40}
 
 
 def replay(doc):
+    if doc.get("kind") == "candidate":
+        acc = common.new_acc()
+        candidate_graph_cases(random.Random(3), acc, 300)
+        return acc["violations"]
     return common.replay_sessions(doc, make_monitors)
